@@ -1,7 +1,10 @@
 #!/usr/bin/env python3
 """Regenerates MANIFEST.json from the table below (one place to edit)."""
 import json, os
+import sys
 ROOT = os.path.dirname(os.path.dirname(os.path.abspath(__file__)))
+sys.path.insert(0, os.path.join(ROOT, "bin"))
+from checkcfg import FUZZ  # noqa: E402
 
 # id -> (technique, level text, level note, design ref)
 CLAIMED = {
@@ -95,6 +98,8 @@ def main():
         pid = p["id"]
         if pid in CLAIMED:
             tech, text, note, ref = CLAIMED[pid]
+            if pid in FUZZ:
+                tech += "; thorough tier additionally: Go native coverage-guided fuzzing (" + ", ".join(t for t, _ in FUZZ[pid]) + ") over the same generator decisions / the template source, same oracle"
             checks.append({
                 "property_id": pid,
                 "quick_cmd": "bin/check %s quick" % pid,
@@ -119,7 +124,7 @@ def main():
             "add_only": True,
         },
         "engines": [{"name": "jetverif", "path": "/verif/harness", "serves_properties": sorted(CLAIMED),
-                     "kind_free_text": "Go module: rapid (pgregory.net/rapid v1.3.0) generators + explicit oracles per property, driven by bin/check (python3) in parallel shards; replay files are JSON cases re-executed without rapid"}],
+                     "kind_free_text": "Go module: rapid (pgregory.net/rapid v1.3.0) generators + explicit oracles per property, driven by bin/check (python3) in parallel shards, in the thorough tier followed by Go's native fuzzer on the same generators/oracles; replay files are JSON cases re-executed without rapid"}],
         "checks": checks,
         "not_applicable": na,
         "notes": "exit 0 = held; exit 1 + VIOLATION line = violation with shrunk replay file; exit 2 = infrastructure trouble (never a verdict). KNOWN_FINDINGS.txt lists fixed and unfixed genuine defects.",
